@@ -26,6 +26,52 @@ def introducedIn : Field → Str
   | .dynamic => ofString "2.2"
   | .license_expression | .license_files => ofString "2.4"
 
+/-- core metadata specification: the header that carries the field -/
+def headerName : Field → Str
+  | .metadata_version => ofString "Metadata-Version"
+  | .name => ofString "Name"
+  | .version => ofString "Version"
+  | .dynamic => ofString "Dynamic"
+  | .platforms => ofString "Platform"
+  | .supported_platforms => ofString "Supported-Platform"
+  | .summary => ofString "Summary"
+  | .description => ofString "Description"
+  | .description_content_type => ofString "Description-Content-Type"
+  | .keywords => ofString "Keywords"
+  | .home_page => ofString "Home-page"
+  | .download_url => ofString "Download-URL"
+  | .author => ofString "Author"
+  | .author_email => ofString "Author-email"
+  | .maintainer => ofString "Maintainer"
+  | .maintainer_email => ofString "Maintainer-email"
+  | .license => ofString "License"
+  | .license_expression => ofString "License-Expression"
+  | .license_files => ofString "License-File"
+  | .classifiers => ofString "Classifier"
+  | .requires_dist => ofString "Requires-Dist"
+  | .requires_python => ofString "Requires-Python"
+  | .requires_external => ofString "Requires-External"
+  | .project_urls => ofString "Project-URL"
+  | .provides_extra => ofString "Provides-Extra"
+  | .provides_dist => ofString "Provides-Dist"
+  | .obsoletes_dist => ofString "Obsoletes-Dist"
+  | .requires => ofString "Requires"
+  | .provides => ofString "Provides"
+  | .obsoletes => ofString "Obsoletes"
+
+/-- how a field is represented in `RawMetadata`: single-use string, multiple-use list, the comma-separated
+Keywords, the label → URL dict of Project-URL -/
+inductive FieldType where
+  | str | list | keywords | dict
+  deriving DecidableEq, Repr
+
+def fieldType : Field → FieldType
+  | .platforms | .supported_platforms | .classifiers | .requires | .provides | .obsoletes | .requires_dist
+  | .provides_dist | .obsoletes_dist | .requires_external | .provides_extra | .dynamic | .license_files => .list
+  | .keywords => .keywords
+  | .project_urls => .dict
+  | _ => .str
+
 def knownVersions : List Str :=
   [ofString "1.0", ofString "1.1", ofString "1.2", ofString "2.1", ofString "2.2", ofString "2.3", ofString "2.4"]
 
